@@ -1,5 +1,6 @@
 // extract: regenerates Lean facts from the sources of the repository under test.
 //
+//	extract footprint <repo> <out.lean> [out.json]   storage write footprint of every manifest method (footprint.go)
 //	extract consts <repo> <out.lean>   every constant (package level and function level) and every simple
 //	                                   byte-slice / string package variable of common/ and contracts/*,
 //	                                   deploy/ and rpc/nns as Lean definitions in namespace NeoFS.Generated
@@ -75,8 +76,16 @@ func main() {
 		accessMain(os.Args[2], os.Args[3], js)
 		return
 	}
+	if len(os.Args) >= 4 && os.Args[1] == "footprint" {
+		js := ""
+		if len(os.Args) > 4 {
+			js = os.Args[4]
+		}
+		footprintMain(os.Args[2], os.Args[3], js)
+		return
+	}
 	if (len(os.Args) != 4 && len(os.Args) != 5) || os.Args[1] != "consts" {
-		die(fmt.Errorf("usage: extract consts <repo> <out.lean> | extract access <repo> <out.lean> [out.json]"))
+		die(fmt.Errorf("usage: extract consts <repo> <out.lean> | extract access <repo> <out.lean> [out.json] | extract footprint <repo> <out.lean> [out.json]"))
 	}
 	repo, out := os.Args[2], os.Args[3]
 	cfg := &packages.Config{Mode: packages.NeedName | packages.NeedFiles | packages.NeedSyntax | packages.NeedTypes | packages.NeedTypesInfo | packages.NeedImports | packages.NeedDeps, Dir: repo,
@@ -149,6 +158,9 @@ func main() {
 							} else if dd.Tok == token.VAR && i < len(vs.Values) {
 								if bs, ok := byteLit(p, vs.Values[i]); ok {
 									add(name, fmt.Sprintf("def %s : List Nat := %s", name, bytesList(bs)))
+									// the same bytes under the name a string constant of that name would get: `var p = []byte("x")` and
+									// `const p = "x"` give the same <name>_bytes
+									add(name+"_bytes", fmt.Sprintf("def %s_bytes : List Nat := %s", name, bytesList(bs)))
 								}
 							}
 						}
